@@ -6,7 +6,9 @@ from props import _units as X
 ID = "C08"
 SECTIONS = ["units"]
 LEAN_MODULES = ["QExPy.Props.C08"]
-THEOREMS = []
+THEOREMS = ["QExPy.C08_dispatch", "QExPy.C08_order_insensitive", "QExPy.C08_mismatch",
+            "QExPy.C08_addsub_empty", "QExPy.C08_perm", "QExPy.C08_exponents",
+            "QExPy.C08_no_zero_entries", "QExPy.C08_dim"]
 RULE = ("seeded unit-expression trees of depth <= 5 over {+,-,*,/,**k (k in +-1..3, 1/2, 1/3, 2/3, "
         "3/2), sqrt, neg, number operands}, 1-4 symbols, integer leaf exponents +-1..4, leaf units "
         "written in random factor order with '*' or the dot; the operands of every +/- are "
